@@ -528,6 +528,16 @@ func prepareX(root, id string, sc *Sc, oldMf bool, insts []Inst, markers, childr
 				if terr != nil {
 					return nil, terr
 				}
+				if bytes.Equal(tb, b) && len(b) > 0 {
+					// nothing in the archive depends on the payload (no entries / a cut-off container): change a byte that
+					// leaves a gzip stream well-formed (its header's modification time), else the last byte
+					tb = append([]byte(nil), b...)
+					if len(tb) > 10 && tb[0] == 0x1f && tb[1] == 0x8b {
+						tb[4] ^= 0x01
+					} else {
+						tb[len(tb)-1] ^= 0x01
+					}
+				}
 				if len(tb) != len(b) || bytes.Equal(tb, b) {
 					return nil, fmt.Errorf("tampered cache entry must differ from the archive and have its length (%d vs %d)", len(tb), len(b))
 				}
